@@ -105,6 +105,7 @@ contract('ResourceManager.reserve_resources', props=['C09'], args={'request': 'd
              'failure_takes_nothing': 'implies(result is None, pool_unchanged(self))',
              'reservation_holds_exactly_the_request':
                  'implies(result is not None, fresh(result) and result._resource_manager is self and '
+                 '  result._reserved_resources is not None and fresh(result._reserved_resources) and '
                  '  all((n in result._reserved_resources) == (n in request and request[n] > 0) and '
                  '      implies(n in request and request[n] > 0, result._reserved_resources[n] == request[n]) '
                  '      for n in refs()))',
@@ -164,8 +165,8 @@ contract('ReservedResources.reserved_resources', props=['C09'], args={}, result=
 contract('ReservedResources.release', props=['C09', 'C10'], args={'resources': 'dict[str,real]?'},
          requires=dict(RR_PRE, argument_is_a_dict='resources is None or (alive(resources) and '
                                                   'resources is not self._resource_manager._resources)'),
-         raises={'ValueError': (None, {'raises_unchanged': '@frame:'}),
-                 'KeyError': (None, {'raises_unchanged': '@frame:'})},
+         raises={'ValueError': ('only_if:resources is not None', {'raises_unchanged': '@frame:'}),
+                 'KeyError': ('only_if:resources is not None', {'raises_unchanged': '@frame:'})},
          ensures={
              'only_valid_requests_succeed':
                  'old(resources is None or all(resources[n] >= 0 and n in self._reserved_resources and '
@@ -177,7 +178,10 @@ contract('ReservedResources.release', props=['C09', 'C10'], args={'resources': '
              'holdings_reduced_exactly':
                  'all(held(self, n) == old(held(self, n)) - '
                  '    old(ite(resources is None, held(self, n), ite(n in resources, resources[n], 0))) for n in refs())',
-         })
+         },
+         modular=True,
+         modifies=['self._reserved_resources[]', 'self._resource_manager._resources[]',
+                   'self._resource_manager._g_check_pending', '$trace'])
 # loop 1: validation of a partial release
 loop('ReservedResources.release', 1, 'for (resource_name, amount) in resources.items()',
      {'validated_prefix':
